@@ -119,16 +119,16 @@ func uploadReq(t *core.Tape) baseReq {
 	case 3:
 		f0, f1, f2 := mkFile(t, 0), mkFile(t, 1), mkFile(t, 2)
 		return baseReq{Query: `mutation($in: UpIn!) { upIn(in: $in) }`,
-			Vars:  map[string]any{"in": map[string]any{"tag": "t", "file": nil, "files": []any{nil}, "nested": map[string]any{"file": nil}}},
-			Files: []file{f0, f1, f2},
-			Map:   map[string][]string{"0": {"variables.in.file"}, "1": {"variables.in.files.0"}, "2": {"variables.in.nested.file"}},
+			Vars:        map[string]any{"in": map[string]any{"tag": "t", "file": nil, "files": []any{nil}, "nested": map[string]any{"file": nil}}},
+			Files:       []file{f0, f1, f2},
+			Map:         map[string][]string{"0": {"variables.in.file"}, "1": {"variables.in.files.0"}, "2": {"variables.in.nested.file"}},
 			WantUploads: []string{describe(f0.Name, f0.CType, f0.Content), describe(f1.Name, f1.CType, f1.Content), describe(f2.Name, f2.CType, f2.Content)}}
 	default:
 		f := mkFile(t, 0)
 		return baseReq{Query: `mutation($in: UpIn!) { upIn(in: $in) }`,
-			Vars:  map[string]any{"in": map[string]any{"file": nil, "nested": map[string]any{"files": []any{nil, nil}}}},
-			Files: []file{f},
-			Map:   map[string][]string{"0": {"variables.in.file", "variables.in.nested.files.1", "variables.in.nested.files.0"}},
+			Vars:        map[string]any{"in": map[string]any{"file": nil, "nested": map[string]any{"files": []any{nil, nil}}}},
+			Files:       []file{f},
+			Map:         map[string][]string{"0": {"variables.in.file", "variables.in.nested.files.1", "variables.in.nested.files.0"}},
 			WantUploads: []string{describe(f.Name, f.CType, f.Content), describe(f.Name, f.CType, f.Content), describe(f.Name, f.CType, f.Content)}}
 	}
 }
